@@ -270,7 +270,6 @@ func (s *Server) aofshrink() {
 			// point to the new file.
 
 			// anything below this point is unrecoverable. just log and exit process
-			// back up the live aof, just in case of fatal error
 			if err := s.aof.Close(); err != nil {
 				log.Fatalf("shrink live aof close fatal operation: %v", err)
 			}
@@ -278,9 +277,9 @@ func (s *Server) aofshrink() {
 				log.Fatalf("shrink new aof close fatal operation: %v", err)
 			}
 			verifPoint(s, "shrink.swap.closed")
-			if err := os.Rename(s.opts.AppendFileName, s.opts.AppendFileName+"-bak"); err != nil {
-				log.Fatalf("shrink backup fatal operation: %v", err)
-			}
+			// The new file atomically replaces the live aof. The live file must
+			// never be moved away first: a crash between two renames would leave
+			// no appendonly.aof and the next start would come up empty.
 			verifPoint(s, "shrink.swap.renamed1")
 			if err := os.Rename(s.opts.AppendFileName+"-shrink", s.opts.AppendFileName); err != nil {
 				log.Fatalf("shrink rename fatal operation: %v", err)
